@@ -7,6 +7,8 @@ correspondence:  DeepSearch(obj, item, **mode) on generated nested objects x ite
                  TypeError) with the Gallina model evaluated inside Coq.  The regular
                  expression engine, str(bytes) and str(compiled pattern) enter the model as
                  oracle tables computed here with Python's `re` / `str`.
+grep front end:  ONE grep(item, **options) instance used with | two or three times (same / different objects);
+                 every use must equal DeepSearch(obj, item, **options) and the model (a pure function).
 direct oracle:   an independent reference search written from the documentation (enumerate
                  every location with its ancestors, filter by exclusion and by the matching
                  mode), `deepdiff.extract` on every reported path, deepcopy comparison of the
@@ -256,9 +258,14 @@ def run_impl(obj, item, kw):
     """('raise', class name) | ('ok', [(text, value)] matched_paths, [(text, value)] matched_values, other keys)
     in the implementation's own order; values are None at verbose_level 1."""
     from deepdiff import DeepSearch
+    return run_call(lambda: DeepSearch(obj, item, **kw))
+
+
+def run_call(call):
+    """Run one search entry point (DeepSearch(...) or obj | grep_instance) and canonicalise its outcome."""
     logging.disable(logging.CRITICAL)
     try:
-        ds = DeepSearch(obj, item, **kw)
+        ds = call()
     except TypeError:
         return ("raise", "TypeError")
     except Exception as e:   # anything else is not part of the model
@@ -820,8 +827,93 @@ def witnesses(ctx):
     ctx.coq_cases("search_witness", HEADER, cases, shard=300, label="witnesses_and_doc_examples")
 
 
+def variant(rng, obj, with_bytes):
+    """Another object for the same grep instance: a one-edit neighbour, or a fresh one."""
+    if rng.random() < 0.5:
+        return gen_obj(rng, rng.choice([2, 3]), 3, with_bytes)
+    v = copy.deepcopy(obj)
+    if isinstance(v, list):
+        v.insert(rng.randint(0, len(v)), gen_leaf(rng, with_bytes))
+    elif isinstance(v, dict):
+        v[rng.choice(STRS)] = gen_obj(rng, 1, 2, with_bytes)
+    else:
+        v = [v, gen_leaf(rng, with_bytes)]
+    return v
+
+
+def grep_step(ctx, g, obj, item, cfg, cases, tag, seq):
+    """One use `obj | g` of a (possibly already used) grep instance: its result must be the one of a
+    direct DeepSearch(obj, item, **options) and the one of the model (a pure function of obj, item, options)."""
+    obj = copy.deepcopy(obj)
+    locs = locations(obj)
+    verbose2 = cfg["verbose_level"] >= 2
+    gres = run_call(lambda: obj | g)
+    dres = run_impl(obj, item, kwargs_of(cfg))
+    ctx.seen(("grep", tag, len(seq), repr(obj), repr(item), repr(sorted(cfg.items()))),
+             nontrivial=gres[0] != "ok" or bool(gres[1]) or bool(gres[2]))
+    ctx.count("grep_instance:use_%d" % min(len(seq) + 1, 3))
+    seq.append(repr(obj))
+    if expected_of(gres, verbose2) != expected_of(dres, verbose2):
+        c = case_dict(obj, item, cfg, "use no. %d of one grep instance gives %r, DeepSearch(obj, item, **options) gives %r" % (
+            len(seq), gres[1:3] if gres[0] == "ok" else gres, dres[1:3] if dres[0] == "ok" else dres))
+        c["grep_sequence"] = list(seq)
+        ctx.fail(c, "a grep(item, **options) instance used with | for the %s time: the result differs from DeepSearch(obj, item, "
+                    "**options) (options lost or changed between uses)" % ("first" if len(seq) == 1 else "%d." % len(seq)))
+    cases.append((model_case(obj, item, cfg, locs), expected_of(gres, verbose2),
+                  {"tag": tag, "obj": repr(obj), "item": repr(item), "options": cfg, "grep_sequence": list(seq)}))
+
+
+def grep_sequence(ctx, objs, item, cfg, cases, tag):
+    from deepdiff import grep
+    kw = kwargs_of(cfg)
+    before = repr(sorted((k, repr(v)) for k, v in kw.items()))
+    g = grep(item, **kw)
+    seq = []
+    for o in objs:
+        grep_step(ctx, g, o, item, cfg, cases, tag, seq)
+    if repr(sorted((k, repr(v)) for k, v in kw.items())) != before:
+        ctx.fail(dict(case_dict(objs[0], item, cfg, "options after the searches: %r" % (kw,)), grep_sequence=seq),
+                 "grep modified the option values it was given")
+
+
+def grep_reuse(ctx, n):
+    """The grep front end: ONE grep(item, **options) instance (options biased towards exclusions), used with |
+    two or three times on the same and on different objects."""
+    rng = ctx.rng
+    cases = []
+    fixed = [([{'a': 1, 'b': "somewhere"}, {'c': 4, 'b': "somewhere"}], "somewhere", {"exclude_paths": ["root[0]['b']"]}),
+             ({'k': ['x1', 'x2'], 'x': 'x'}, 'x', {"exclude_regex_paths": ["\\[1\\]"], "exclude_paths": ["root['x']"]}),
+             ([1.5, 'x1.5', [1.5]], '1.5', {"exclude_types": ["float"], "strict_checking": False})]
+    for obj, item, part in fixed:
+        grep_sequence(ctx, [obj, obj, copy.deepcopy(obj)], item, full_cfg(part), cases, "grep-fixed")
+    made = 0
+    while made < n:
+        with_bytes = rng.random() < 0.08
+        obj = gen_obj(rng, rng.choice([2, 2, 3]), rng.choice([2, 3, 4]), with_bytes)
+        locs = locations(obj)
+        cfg = gen_cfg(rng, locs)
+        texts = [path_text(s) for s, _, _ in locs]
+        if rng.random() < 0.6 and not cfg["exclude_paths"]:
+            cfg["exclude_paths"] = sorted(set(rng.choice(texts) for _ in range(rng.randint(1, 2))))
+        if rng.random() < 0.3 and not cfg["exclude_regex_paths"]:
+            cfg["exclude_regex_paths"] = [rng.choice(EXCL_RX)]
+        item = gen_item(rng, obj, locs, cfg["use_regexp"])
+        objs = [obj, variant(rng, obj, with_bytes), obj][:rng.choice([2, 3, 3])]
+        if not all(lower_ok(o, item) for o in objs):
+            continue
+        if cfg["use_regexp"] and isinstance(item, (str, bytes)):
+            try:
+                re.compile(effective_item(item, cfg))
+            except re.error:
+                continue
+        grep_sequence(ctx, objs, item, cfg, cases, "grep-random")
+        made += 1
+    ctx.coq_cases("search_grep", HEADER, cases, shard=250, label="grep_instance_reuse")
+
+
 def run(ctx):
     witnesses(ctx)
+    grep_reuse(ctx, 1500 if ctx.thorough else 250)
     random_cases(ctx, 12000 if ctx.thorough else 3200)
     universe_cases(ctx, 12000 if ctx.thorough else 600)
 
@@ -842,6 +934,10 @@ def replay(ctx, data):
         return run(ctx)
     obj, item, cfg = _eval(case["obj"]), _eval(case["item"]), full_cfg(case["options"])
     cases = []
+    if case.get("grep_sequence"):
+        objs = [_eval(t) for t in case["grep_sequence"]]
+        print("replay: one grep(%r, %s) instance used on %d objects" % (item, fmt_kw(cfg), len(objs)))
+        grep_sequence(ctx, objs, item, cfg, cases, "replay-grep")
     do_case(ctx, obj, item, cfg, cases, "replay")
     kw = kwargs_of(cfg)
     print("replay: DeepSearch(%r, %r, %s)" % (obj, item, fmt_kw(cfg)))
